@@ -4,18 +4,20 @@ from .. import core
 CLAUSES = {
     1: "an unauthenticated client was not refused",
     2: "accepted although the envelope sender is not an address the user is entitled to",
+    4: "a normalisation setting identified two strings its contract keeps apart (casefold: different lower-case forms; noop: different strings), so an address that is not the user's compares equal to one that is",
     3: "accepted although a From address (in some From field) is not one the user is entitled to and no entitled Sender address covers it",
 }
 TRUSTED = [
     "Coq 8.16.1 kernel (coqc); vm_compute",
     "harness/c15 (Go generator; normalizers, prepare_email / user_to_email tables, address.Split and net/mail ParseAddressList / ParseAddress recorded as tables per case on the strings the case can reach; header fields as go-message textproto returns them)",
     "Auth/Authz.v is a hand-written model of check.authorize_sender and authz.AuthorizeEmailUse; ReasonOverride of a fail action and the debug log are not modelled",
+    "the contract of the normalisation settings noop and casefold (Auth/NormCorr.v) is stated against Go's unicode.ToLower, recorded per string; the precis* settings are oracles (golang.org/x/text)",
     "submissionPrepare (header sanity on submission) runs after the checks and is not part of this model",
 ]
 
 def run(ctx):
     ctx.trusted = TRUSTED
-    ok, detail = core.coq_build(ctx, ["theories/Props/C15.vo", "theories/Auth/AuthzCorr.vo"])
+    ok, detail = core.coq_build(ctx, ["theories/Props/C15.vo", "theories/Auth/AuthzCorr.vo", "theories/Auth/NormCorr.vo"])
     ctx.oblige("coq build of Props/C15.vo and its dependencies", ok, detail)
     core.audit(ctx)
     if not ok:
@@ -26,8 +28,13 @@ def run(ctx):
     n = 600 if ctx.tier == "quick" else 12000
     core.generic_corr(ctx, overlay=ov, pkg="internal/check/authorize_sender", run="TestVerif_C15", n=n,
                       corr_module="Auth.AuthzCorr", clause_names=CLAUSES, name="authz", shard=200)
+    core.generic_corr(ctx, overlay=ov, pkg="internal/check/authorize_sender", run="TestVerif_C15Norm", n=400 if ctx.tier == "quick" else 6000,
+                      corr_module="Auth.NormCorr", clause_names=CLAUSES, name="normalizers", shard=400)
     ctx.coverage["rule"] = ("generated configurations (7 normalizers on either side, identity / single / list / domain / '*' "
                             "entitlement tables, identity / single / multi prepare_email tables, reject / quarantine / ignore "
                             "actions, check_header on/off) x messages (MAIL FROM, 0-2 From fields, 0-2 Sender fields, each "
                             "address entitled or not, in case / NFD / upper-case-domain / IDN spellings, as bare address, "
-                            "angle form, display-name tricks, encoded words, folded, lists, groups, malformed); non-trivial = tag != 0")
+                            "angle form, display-name tricks, encoded words, folded, lists, groups, malformed); non-trivial = tag != 0.  normalizers: the functions behind the seven setting names on pairs of "
+                            "spellings (case pairs, sharp s / ss, long s, final sigma, ligatures, full-width, dotted I, Kelvin sign, "
+                            "titlecase digraphs) in local part or domain, against the contract of noop and casefold (per-character "
+                            "lower case from Go's unicode tables)")
